@@ -25,10 +25,10 @@ pub fn panic_msg(e: &Box<dyn std::any::Any + Send>) -> String {
     }
 }
 
-/// Run f; a panic is data: {"panic": msg, "at": file:line}
+/// Run f; result {"r": value}; a panic is data: {"panic": msg, "at": file:line}
 pub fn guarded<F: FnOnce() -> J>(f: F) -> J {
     match std::panic::catch_unwind(std::panic::AssertUnwindSafe(f)) {
-        Ok(v) => v,
+        Ok(v) => json!({"r": v}),
         Err(e) => {
             let at = LAST_PANIC_LOC.with(|c| c.borrow().clone());
             let at = at.rsplit("/repo/").next().unwrap_or("").to_string();
@@ -53,4 +53,42 @@ pub fn alnum_flags(s: &str) -> String {
 
 pub fn s(j: &J, k: &str) -> String {
     j[k].as_str().unwrap_or_else(|| panic!("case field {k} missing: {j}")).to_string()
+}
+
+/// Evaluate `$body` once per backend with the type alias `$b` bound to the
+/// backend's builder type; result {"mysql":..,"pg":..,"sqlite":..}; panics are data.
+#[macro_export]
+macro_rules! per_backend {
+    ($b:ident => $body:expr) => {{
+        let mut o = serde_json::Map::new();
+        {
+            #[allow(dead_code)]
+            type $b = sea_query::MysqlQueryBuilder;
+            o.insert("mysql".to_string(), $crate::util::guarded(|| $body));
+        }
+        {
+            #[allow(dead_code)]
+            type $b = sea_query::PostgresQueryBuilder;
+            o.insert("pg".to_string(), $crate::util::guarded(|| $body));
+        }
+        {
+            #[allow(dead_code)]
+            type $b = sea_query::SqliteQueryBuilder;
+            o.insert("sqlite".to_string(), $crate::util::guarded(|| $body));
+        }
+        serde_json::Value::Object(o)
+    }};
+}
+
+pub trait BName {
+    const NAME: &'static str;
+}
+impl BName for sea_query::MysqlQueryBuilder {
+    const NAME: &'static str = "mysql";
+}
+impl BName for sea_query::PostgresQueryBuilder {
+    const NAME: &'static str = "pg";
+}
+impl BName for sea_query::SqliteQueryBuilder {
+    const NAME: &'static str = "sqlite";
 }
